@@ -11,9 +11,9 @@
 #include <unistd.h>
 
 struct alw_ctl alw;
-static const char *NAMES[] = {"malloc", "mmap", "mremap", "munmap", "open", "fstat", "read", "fopen", "fwrite", "fclose"};
+static const char *NAMES[] = {"malloc", "mmap", "mremap", "munmap", "open", "fstat", "read", "fopen", "fwrite", "fclose", "write", "calloc", "realloc", "fflush", "fdopen", "ftruncate"};
 const char *alw_kind_name(int k) { return k >= 0 && k < ALW_NKINDS ? NAMES[k] : "?"; }
-void alw_reset(void) { int g = alw.guard_files; memset(&alw, 0, sizeof alw); alw.guard_files = g; }
+void alw_reset(void) { int g = alw.guard_files, c = alw.guard_code; memset(&alw, 0, sizeof alw); alw.guard_files = g; alw.guard_code = c; }
 
 /* returns 1 if this call must fail */
 static int hit(int kind) {
@@ -39,6 +39,16 @@ void *alw_mmap(void *addr, size_t len, int prot, int flags, int fd, off_t off) {
     if (p == MAP_FAILED) { munmap(res, span + pg); return MAP_FAILED; }
     return p; /* the trailing guard page stays reserved (leaked on munmap; harmless in short-lived workers) */
   }
+  if (alw.guard_code && addr == NULL && len > 0 && len < (1u << 26) && fd < 0 && (prot & PROT_EXEC)) {
+    /* the library-managed code buffer: reserve inaccessible pages behind it, so that a write past the mapped length
+     * faults (a later, real mremap moves the buffer away from the reservation, which is fine) */
+    size_t pg = 4096, span = (len + pg - 1) / pg * pg, guard = 64 * pg;
+    unsigned char *res = mmap(NULL, span + guard, PROT_NONE, MAP_PRIVATE | MAP_ANONYMOUS, -1, 0);
+    if (res == MAP_FAILED) return MAP_FAILED;
+    void *p = mmap(res, len, prot, flags | MAP_FIXED, fd, off);
+    if (p == MAP_FAILED) { munmap(res, span + guard); return MAP_FAILED; }
+    return p;
+  }
   return mmap(addr, len, prot, flags, fd, off);
 }
 void *alw_mremap(void *old, size_t oldlen, size_t newlen, int flags, ...) { if (hit(ALW_MREMAP)) { errno = ENOMEM; return MAP_FAILED; } return mremap(old, oldlen, newlen, flags); }
@@ -58,3 +68,17 @@ size_t alw_fwrite(const void *p, size_t sz, size_t n, FILE *f) {
   return fwrite(p, sz, n, f);
 }
 int alw_fclose(FILE *f) { if (hit(ALW_FCLOSE)) { fclose(f); errno = ENOSPC; return EOF; } /* late ENOSPC: data did not reach the disk */ return fclose(f); }
+
+/* superset: calls the pinned library does not make today, so that a refactored reader/writer stays covered */
+ssize_t alw_write(int fd, const void *p, size_t n) { if (fd == 1 || fd == 2) return write(fd, p, n); if (hit(ALW_WRITE)) { errno = ENOSPC; size_t half = n / 2; if (half) return write(fd, p, half); return -1; } return write(fd, p, n); }
+ssize_t alw_pwrite(int fd, const void *p, size_t n, off_t o) { if (hit(ALW_WRITE)) { errno = ENOSPC; return -1; } return pwrite(fd, p, n, o); }
+ssize_t alw_pread(int fd, void *p, size_t n, off_t o) { if (hit(ALW_READ)) { errno = EIO; return -1; } return pread(fd, p, n, o); }
+void *alw_calloc(size_t a, size_t b) { if (hit(ALW_CALLOC)) { errno = ENOMEM; return NULL; } return calloc(a, b); }
+void *alw_realloc(void *p, size_t n) { if (hit(ALW_REALLOC)) { errno = ENOMEM; return NULL; } return realloc(p, n); }
+int alw_fflush(FILE *f) { if (f == stderr || f == stdout || f == NULL) return fflush(f); if (hit(ALW_FFLUSH)) { errno = ENOSPC; return EOF; } return fflush(f); }
+FILE *alw_fdopen(int fd, const char *m) { if (hit(ALW_FDOPEN)) { errno = ENOMEM; return NULL; } return fdopen(fd, m); }
+int alw_ftruncate(int fd, off_t n) { if (hit(ALW_FTRUNCATE)) { errno = EIO; return -1; } return ftruncate(fd, n); }
+int alw_openat(int d, const char *path, int flags, ...) { mode_t mode = 0; va_list ap; va_start(ap, flags); mode = va_arg(ap, mode_t); va_end(ap); if (hit(ALW_OPEN)) { errno = EMFILE; return -1; } return openat(d, path, flags, mode); }
+int alw_creat(const char *path, mode_t mode) { if (hit(ALW_OPEN)) { errno = EACCES; return -1; } return creat(path, mode); }
+int alw_stat(const char *path, struct stat *st) { if (hit(ALW_FSTAT)) { errno = EIO; return -1; } return stat(path, st); }
+size_t alw_fread(void *p, size_t sz, size_t n, FILE *f) { if (hit(ALW_READ)) { errno = EIO; return 0; } return fread(p, sz, n, f); }
